@@ -584,6 +584,86 @@ theorem no_panic_getRows (iters : List Bool) :
   simp only [Outcome.ok.injEq] at hn
   omega
 
+/-! ## the streaming row iterator -/
+
+/-- `Rows.Next` / `Rows.Columns` take no index or slice at all, and the row-number guards are in place -/
+theorem guards_rows_iterator :
+    Facts.C14.index_rowsNext = [] ∧ Facts.C14.index_rowsColumns = [] ∧
+    "rows.curRow >= rows.seekRow" ∈ Facts.C14.conds_rowsNext ∧ "rowNum > TotalRows" ∈ Facts.C14.conds_rowsNext ∧
+    "rows.curRow > rows.seekRow" ∈ Facts.C14.conds_rowsColumns := by decide
+
+/-- clause "never run without bound", one step of the iterator, for EVERY token sequence: `Next` advances
+`seekRow` by exactly one, never puts tokens back, and a `true` answer either is the catch-up step
+(`curRow ≥ seekRow`) or consumed a token; `curRow` only moves to `curRow + 1` or to a row number within
+TotalRows.  (The number of `GetRows` iterations is therefore at most TotalRows + 2 × tokens; that global
+bound is not assembled as a theorem — the fuel-bounded run `getRowsIter` is compared with `GetRows`.) -/
+theorem rows_next_step (s : RowsState) :
+    (rowsNext s).2.2.seek = s.seek + 1 ∧
+    (rowsNext s).2.2.toks.length ≤ s.toks.length ∧
+    ((rowsNext s).1 = true → s.cur ≥ s.seek + 1 ∨ (rowsNext s).2.2.toks.length < s.toks.length) ∧
+    ((rowsNext s).2.2.cur ≤ s.cur + 1 ∨ (rowsNext s).2.2.cur ≤ (Facts.TotalRows : Int)) := by
+  unfold rowsNext
+  split
+  · rename_i h; simp; exact h
+  · have := nextScan_spec s.cur (s.seek + 1) s.toks
+    generalize nextScan s.cur (s.seek + 1) s.toks = res at this
+    obtain ⟨ok, e, s'⟩ := res
+    simp only at this ⊢
+    exact ⟨this.1, this.2.1, fun h => Or.inr (this.2.2.1 h), this.2.2.2⟩
+
+/-! ## every index taken from a struct field -/
+
+/-- the table of index / slice expressions of the read-side files whose index is a struct field — the
+syntactic shape of "indexed by a decoded value" — is the reviewed one.  Coverage of the 97 entries:
+`checkSheet` ×3 (`no_panic_load`), `formattedValue` ×2 (`no_panic_styleIndex`), `GetStyle` ×3 (`no_panic_getStyle`),
+`GetComments` (`no_panic_commentAuthor`), `createIV` (`no_panic_agile_validation`), `getImageCellRel` ×2
+(`no_panic_imageCellRel_partial` + two findings), `extractPivotTableFields` `order[field.Fld]` (open finding,
+outside the battery); all the others index maps (Go maps cannot panic on lookup) keyed by option or
+decoded strings, or belong to writer functions (`add…`, `draw…`, `new…`, `Set…`) driven by API options. -/
+theorem field_index_sites_reviewed :
+    Facts.C14.fieldIndexSites.length = 97 ∧
+    -- … of which index a slice (not a map) outside the writer functions:
+    Facts.C14.fieldIndexSitesSlices =
+      ["excelize.go:checkSheet: sheetData.Row[r.R-1]", "excelize.go:checkSheet: sheetData.Row[r0Row.R-1]",
+       "excelize.go:checkSheet: sheetData.Row[r0Row.R-1]", "crypt.go:createIV: iv[:encryptedKey.BlockSize]",
+       "cell.go:formattedValue: styleSheet.CellXfs.Xf[c.S]", "cell.go:formattedValue: styleSheet.CellXfs.Xf[c.S]",
+       "styles.go:GetStyle: s.Fills.Fill[*xf.FillID]", "styles.go:GetStyle: s.Borders.Border[*xf.BorderID]",
+       "styles.go:GetStyle: s.Fonts.Font[*xf.FontID]", "picture.go:getImageCellRel: vmd.Bk[*c.Vm-1]",
+       "picture.go:getImageCellRel: vmd.Bk[*c.Vm-1]", "vml.go:GetComments: cmts.Authors.Author[cmt.AuthorID]",
+       "pivotTable.go:extractPivotTableFields: order[field.Fld]"] := by decide
+
+/-- `getImageCellRel`, partial: never panics when the cell's `vm` is at least 1 and the record's `v` is not
+negative (the two guards the function lacks) -/
+theorem no_panic_imageCellRel_partial (vm : Nat) (nBk : Option Nat) (rcLen : Nat → Nat) (v : Int) (nRv : Nat)
+    (h1 : 1 ≤ vm) (h2 : 0 ≤ v) : (imageCellRel vm nBk rcLen v nRv).isPanic = false := by
+  unfold imageCellRel
+  cases nBk with
+  | none => rfl
+  | some n =>
+    simp only
+    split; · rfl
+    rename_i hle
+    have hi : (if vm = 0 then 18446744073709551615 else vm - 1) = vm - 1 := if_neg (by omega)
+    simp only [hi]
+    split
+    · omega
+    split; · rfl
+    split
+    · omega
+    split; · rfl
+    rename_i hv
+    rw [inRange_of h2 (by omega)]
+    rfl
+
+/-- finding: `vm="0"` wraps the unsigned subtraction and indexes the block list with 2^64-1 -/
+theorem finding_imageCell_vm_zero : (imageCellRel 0 (some 1) (fun _ => 1) 0 1).isPanic = true := by
+  decide +kernel
+
+/-- finding: a negative `v` in the value-metadata record passes `richValueIdx >= len(…)` and indexes the
+rich values with it -/
+theorem finding_imageCell_negative_rv : (imageCellRel 1 (some 1) (fun _ => 1) (-1) 1).isPanic = true := by
+  decide +kernel
+
 /-! ## non-vacuity -/
 
 /-- the hypotheses are satisfiable and the guards do reject: unordered cells (Z1, C1, D1) load
